@@ -155,7 +155,7 @@ func genAliasHTTP(r *vh.Rand) string {
 		if method != "GET" && r.Chance(3, 4) {
 			body = vh.HexS(`{"v":"` + genTmplL(r, pp, httpLits) + `"}`)
 		}
-		defs = append(defs, fmt.Sprintf("%s;%s;%s;%s;%s;%s", vh.HexS(name), vh.HexS(method), vh.HexS(uri), genMetaT(r, hdrKeys, pp, httpLits), body, vh.B(i == 0)))
+		defs = append(defs, fmt.Sprintf("%s;%s;%s;%s;%s;%s;%s", vh.HexS(name), vh.HexS(method), vh.HexS(uri), genMetaT(r, hdrKeys, pp, httpLits), body, vh.B(i == 0), vh.B(r.Chance(1, 2))))
 	}
 	return fmt.Sprintf("ahttp %d %s %s %s %s", ninst, genOrder(r, ninst), genUsers(r), strings.Join(defs, "|"), genScens(r, nd))
 }
@@ -168,7 +168,7 @@ func genTmplURI(r *vh.Rand, pp string) string {
 		if r.Chance(1, 2) {
 			b.WriteString("{{.request." + pp + ".preprocessor.u." + r.Pick([]string{"token", "id"}) + "}}")
 		} else {
-			b.WriteString(r.Pick([]string{"id-", "x", "v1", "-", "tok"}))
+			b.WriteString(r.Pick([]string{"id-", "x", "v1", "-", "tok", "nok"}))
 		}
 	}
 	return b.String() + r.Pick([]string{"", "?q=1", "?t={{.request." + pp + ".preprocessor.u.token}}"})
@@ -177,10 +177,10 @@ func genTmplURI(r *vh.Rand, pp string) string {
 func raceCases(ninst, nshots int) []string {
 	var out []string
 	for _, p := range []string{"http", "httpscen", "grpc", "grpcscen"} {
-		vs := []string{"0", "1"} // http/grpc: shared client off/on
-		if strings.HasSuffix(p, "scen") {
-			vs = []string{"0", "1", "2", "3"} // scenarios: [next] only / +[rand] / +randString / +randInt,uuid
-		}
+		// http/grpc: shared client off/on; scenarios: [next] only / +[rand] / +randString / +randInt,uuid;
+		// suffix c: the shared rps schedule is a composite of many short parts
+		vs := map[string][]string{"http": {"0", "1c"}, "httpscen": {"0c", "1", "2", "3c"},
+			"grpc": {"0c", "1"}, "grpcscen": {"0", "1c", "2c", "3"}}[p]
 		for _, v := range vs {
 			out = append(out, fmt.Sprintf("race %s %d %d %s", p, ninst, nshots, v))
 		}
@@ -206,6 +206,7 @@ func gen(r *vh.Rand, tier string) []string {
 	var out []string
 	for i := 0; i < n/2; i++ {
 		out = append(out, fmt.Sprintf("own %d %d %s", r.Range(1, 8), r.Range(0, 40), vh.B(r.Bool())))
+		out = append(out, fmt.Sprintf("sched %d %d %s", r.Range(2, 8), r.Range(4, 40), vh.B(r.Chance(1, 4))))
 	}
 	for i := 0; i < n; i++ {
 		out = append(out, genAliasGRPC(r))
